@@ -1,6 +1,7 @@
 package harness
 
 import (
+	"io"
 	"bufio"
 	"fmt"
 	"net"
@@ -37,6 +38,8 @@ type c10Plan struct {
 	RespName []string `json:"response_connection_names"`
 	NoNorm   bool     `json:"disable_header_names_normalizing"`
 	Calls    int      `json:"calls"`
+	Stream   bool     `json:"stream_response_body,omitempty"`
+	CallerDoes []string `json:"caller_does_before_release,omitempty"` // per call: "" | del-connection | reset-header | set-keepalive
 }
 
 func init() { scenarios["C10"] = scenC10 }
@@ -52,6 +55,11 @@ func scenC10(e *Env) func() {
 			p.RespName = append(p.RespName, Pick(e, "Connection", "Connection", "connection", "CONNECTION", "cOnNeCtIoN"))
 		}
 		p.NoNorm = e.Chance(30)
+		p.Stream = e.Chance(40)
+		for i := 0; i < p.Calls; i++ {
+			// what a caller may do with the response it was given before letting go of it
+			p.CallerDoes = append(p.CallerDoes, Pick(e, "", "", "del-connection", "reset-header", "set-keepalive"))
+		}
 		e.Sample = p
 		return func() { c10Client(e, p) }
 	}
@@ -283,7 +291,7 @@ func c10Client(e *Env, p *c10Plan) {
 		}
 	})
 	port := 50000
-	hc := &fasthttp.HostClient{Addr: "10.0.0.2:80", MaxConns: 2, DisableHeaderNamesNormalizing: p.NoNorm, Dial: func(a string) (net.Conn, error) {
+	hc := &fasthttp.HostClient{Addr: "10.0.0.2:80", MaxConns: 2, DisableHeaderNamesNormalizing: p.NoNorm, StreamResponseBody: p.Stream, Dial: func(a string) (net.Conn, error) {
 		port++
 		return e.Net.Dial(tcpAddr("10.0.5.1", port), addr.String())
 	}}
@@ -294,6 +302,23 @@ func c10Client(e *Env, p *c10Plan) {
 		e.Ob(1)
 		if err == nil {
 			e.Nontrivial = true
+			// the response is the caller's: whatever it does to it must not
+			// change the connection's fate, which the wire response decided
+			switch p.CallerDoes[i%len(p.CallerDoes)] {
+			case "del-connection":
+				resp.Header.Del("Connection")
+			case "reset-header":
+				resp.Header.Reset()
+			case "set-keepalive":
+				resp.Header.Set("Connection", "keep-alive")
+			}
+			if p.Stream {
+				if bs := resp.BodyStream(); bs != nil {
+					io.Copy(io.Discard, bs)
+				}
+				resp.CloseBodyStream()
+			}
+			fasthttp.ReleaseResponse(resp)
 		}
 		time.Sleep(10 * time.Millisecond)
 	}
